@@ -68,7 +68,11 @@ def hlp(x):
 
 def __sub__(site, k):
     for i in range(k):
-        r = yield (site, i)
+        try:
+            r = yield (site, i)
+        except ValueError:
+            # the sub-generator handles an exception thrown into the delegation and goes on
+            r = yield (site, "recovered")
         LOG.append(("sub", site, i, _norm(r)))
     return site
 
